@@ -95,6 +95,53 @@ def search_failing(ctx, name, cg, pos):
                     return
 
 
+def grid_histories(ctx):
+    """visibility is a function of the grid's CONTENT at the time of the call: one Grid object is looked at, changed in place (doors opened /
+    shut through their own attribute, cells assigned, cells swapped), and looked at again -- always the same answer as a freshly built grid
+    with the same content"""
+    from gym_gridverse.geometry import Position
+    r = ctx.rng
+    CL, LK, OP = (gen.TY['Door'], 1, 2, None), (gen.TY['Door'], 2, 4, None), (gen.TY['Door'], 0, 1, None)
+    for k in range(40 if ctx.tier == 'quick' else 400):
+        h, w = r.choice([(5, 5), (7, 7), (4, 6), (6, 5)])
+        cg = tuple(tuple(r.choice([FLOOR] * 6 + [WALL, CL, LK, OP]) for _ in range(w)) for _ in range(h))
+        pos = (h - 1, r.randrange(w))
+        cg = gen.set_cell(cg, pos, FLOOR)
+        grid = wire.mkgrid(cg)
+        for step in range(r.randint(2, 5)):
+            name = r.choice(['raytracing', 'partially_occluded', 'stochastic_raytracing'])
+            rng = ScriptedRng([[0] * (h * w)]) if name == 'stochastic_raytracing' else None
+            try:
+                got = sorted((int(y), int(x)) for y, x in zip(*np.nonzero(VREG[name](grid, Position(*pos), rng=rng))))
+            except Exception as e:  # noqa: BLE001
+                got = ('err', type(e).__name__)
+            content = wire.cgrid(grid)
+            rng2 = ScriptedRng([[0] * (h * w)]) if name == 'stochastic_raytracing' else None
+            fresh = mask_of(name, content, pos, rng=rng2)
+            fresh = fresh[1] if fresh[0] == 'ok' else ('err', fresh[1])
+            ctx.case(('grid-history', k, step, name), True, None)
+            ctx.count('grid history', name)
+            if got != fresh:
+                ctx.violation(f'{name}: a Grid object that was looked at and then changed in place is seen differently from a fresh grid with the same content',
+                              {'visibility': name, 'agent': pos, 'content': gen.show_state((content, pos, 0, gen.NONE))['grid'], 'step': step})
+                return
+            # change it in place
+            for _ in range(r.randint(1, 3)):
+                y, x = r.randrange(h), r.randrange(w)
+                if (y, x) == pos:
+                    continue
+                o = grid[y, x]
+                kind = r.random()
+                if hasattr(o, 'state') and hasattr(type(o), 'Status') and kind < 0.6:
+                    o.state = r.choice(list(type(o).Status))               # what actuate_door does
+                elif kind < 0.8:
+                    grid[y, x] = wire.mkobj(r.choice([FLOOR, WALL, CL, OP]))
+                else:
+                    y2, x2 = r.randrange(h), r.randrange(w)
+                    if (y2, x2) != pos:
+                        grid.swap(Position(y, x), Position(y2, x2))
+
+
 def run(ctx):
     r = ctx.rng
     ctx.rule = ('(a) ALL opacity patterns of every view up to 3x3 and 2x4 (thorough: up to 3x5, 4x3, 4x4) with the agent on the bottom row: masks of '
@@ -324,6 +371,7 @@ def run(ctx):
                     ctx.count('stochastic near-tie skipped', 1)
                     continue
                 ctx.disagreement('stochastic mask: implementation and model differ', {'grid': cg, 'agent': pos, 'mode': mode, 'impl': got, 'model': [kind, val]})
+    grid_histories(ctx)
 
 
 if __name__ == '__main__':
